@@ -118,7 +118,7 @@ def run_case(case):
     import sympy
     from bioscrape.analysis import py_get_jacobian, py_get_sensitivity_to_parameter
     C = Counter()
-    viol = []
+    viol = util.ViolList()
     sp = case["spec"]
     M = specmod.build_model(sp, "ctor")
     species = M.get_species_list()
